@@ -94,6 +94,27 @@ Definition resolve (es : list eopt) (route : str) : option meth :=
       end
   end.
 
+(* ---- rejected registrations ----
+   Build() looks at the registrations in order; one is REJECTED when its group name is already
+   taken in the tables made so far, or when ExtractHandler refuses it (unnamed or unexported type,
+   no handler-shaped method - e.g. a value whose handlers have pointer receivers).  The property
+   needs a rejected registration to leave the tables exactly as they were: only the ACCEPTED ones
+   decide what is exposed. *)
+Definition rejected (cs : smap container) (eo : eopt) : bool :=
+  match sget (spec_group eo) cs with
+  | Some _ => true
+  | None => negb (servable_b eo)
+  end.
+
+Fixpoint accepted_from (cs : smap container) (es : list eopt) : list eopt :=
+  match es with
+  | [] => []
+  | eo :: r =>
+      if rejected cs eo then accepted_from cs r
+      else eo :: accepted_from (new_service cs eo) r
+  end.
+Definition accepted (es : list eopt) : list eopt := accepted_from [] es.
+
 (* ---- calls ---- *)
 Inductive verdict :=
 | VFail
